@@ -41,11 +41,15 @@ class Predict(Contract):
         if name == "len" and isinstance(args[0], Abstract) and args[0].tag == "pos":
             return Abstract("len_pos")
         if name == "rand" and isinstance(recv, Abstract) and recv.tag == "rng":
-            return Abstract("uniform", n=args[0] if args else None)
+            return Abstract("uniform", n=args[0] if args else None, seeded=True)
+        if name in ("numpy.random.rand", "numpy.random.random", "numpy.random.uniform"):          # numpy's global generator: not the caller's random_state
+            return Abstract("uniform", n=args[0] if args else kwargs.get("size"), seeded=False)
+        if name == "numpy.random.choice":
+            return Abstract("draw", values=args[0] if args else None, p=kwargs.get("p"), seeded=False)
         if name == "numpy.zeros":
             return Abstract("out", n=args[0], stores=[])
         if name == "choice" and isinstance(recv, Abstract) and recv.tag == "rng":
-            return Abstract("draw", values=args[0] if args else None, p=kwargs.get("p"))
+            return Abstract("draw", values=args[0] if args else None, p=kwargs.get("p"), seeded=True)
         return NotImplemented
 
     def on_subscript(self, eng, st, node, base, index):
@@ -97,11 +101,138 @@ class Predict(Contract):
         if self.clf:
             ok = isinstance(value, Abstract) and value.tag == "labels"
             return [("label_is_one_exactly_when_probability_at_least_the_uniform_draw", BoolVal(ok)),
-                    ("one_uniform_draw_per_row", BoolVal(ok and isinstance(value.u.n, Abstract) and value.u.n.tag == "len_pos"))]
+                    ("one_uniform_draw_per_row", BoolVal(ok and isinstance(value.u.n, Abstract) and value.u.n.tag == "len_pos")),
+                    ("draws_come_from_the_generator_derived_from_the_callers_random_state", BoolVal(ok and value.u.seeded))]
         ok = isinstance(value, Abstract) and value.tag == "out" and len(value.stores) == 1
         if not ok:
             return [("returns_one_draw_per_row", BoolVal(False))]
         idx, d = value.stores[0]
         good = isinstance(d, Abstract) and d.tag == "draw" and isinstance(d.values, Abstract) and d.values.tag == "row_values" and is_z3(idx) and d.values.i.eq(idx)
         return [("row_i_is_a_draw_from_the_stored_predictors_values_on_row_i", BoolVal(bool(good))),
-                ("draw_probabilities_are_the_weights_in_the_order_of_the_value_columns", BoolVal(bool(good) and isinstance(d.p, Abstract) and d.p.tag == "weights_in_column_order"))]
+                ("draw_probabilities_are_the_weights_in_the_order_of_the_value_columns", BoolVal(bool(good) and isinstance(d.p, Abstract) and d.p.tag == "weights_in_column_order")),
+                ("draws_come_from_the_generator_derived_from_the_callers_random_state", BoolVal(bool(good) and d.seeded))]
+
+
+# ------------------------------------------------------------------------------------------------ _pmf_predict
+from z3 import Function, Real, RealSort  # noqa: E402
+
+WL = Function("weight_with_label", IntSort(), RealSort())          # weights_[t]: the weight whose INDEX LABEL is t (Series label lookup)
+WP = Function("weight_at_position", IntSort(), RealSort())         # weights_.iloc[t]: the t-th stored weight (weights_ need not be stored in label order)
+T_ = Int("n_predictors")
+
+
+class PmfPredict(Contract):
+    """ExponentiatedGradient._pmf_predict for any number T of stored predictors.  weights_ is a Series indexed by predictor label (a permutation of
+    0..T-1 that is NOT in order when the duality-gap evaluation appended unselected predictors); `_hs[t]` is the predictor labelled t.
+    Per loop iteration (generic t): column t receives h_t(X), or zeros ONLY IF the weight labelled t is zero (then zeroing does not change the
+    mixture).  After the loop: classification = columns re-ordered by weights_.index, dotted with weights_ (label-aligned mixture), returned as
+    rows (1 - p, p); regression = the value frame itself."""
+    source, function = EGF, "ExponentiatedGradient._pmf_predict"
+    prune = False
+
+    def __init__(self, classification):
+        self.clf = classification
+        self.variant = "[classification]" if classification else "[regression]"
+
+    def params(self, eng, st):
+        self.X, self.w, self.hs = Abstract("X"), Abstract("weights_"), Abstract("hs")
+        st.assume(T_ >= 0)
+        st.env.update({"self": Obj("ExponentiatedGradient", {"constraints": Abstract("constraints"), "weights_": self.w, "_hs": self.hs}), "X": self.X})
+
+    def on_call(self, eng, st, node, name, recv, args, kwargs):
+        if name.endswith("check_is_fitted"):
+            return None
+        if name == "pandas.DataFrame" and not args and not kwargs:
+            return Abstract("value_frame")
+        if name == "len" and args[0] is self.hs:
+            return T_
+        if name == "len" and args[0] is self.X:
+            return Int("n_rows")
+        if name == "numpy.zeros":
+            return Abstract("zeros", n=args[0])
+        if name == "$call" and isinstance(recv, Abstract) and recv.tag == "predictor":
+            return Abstract("prediction", t=recv.t, of=args[0] if len(args) == 1 else None)
+        if name == "isinstance" and isinstance(args[0], Abstract) and args[0].tag == "constraints":
+            return self.clf
+        if name == "dot" and isinstance(recv, Abstract) and recv.tag == "columns_in_weight_label_order":
+            return Abstract("mixture", aligned=args[0] is self.w)
+        if name == "to_frame" and isinstance(recv, Abstract) and recv.tag == "mixture":
+            return recv
+        if name == "numpy.concatenate":
+            parts = eng._concrete_items(args[0])
+            return Abstract("pmf", parts=tuple(parts) if parts is not None else None, axis=kwargs.get("axis"))
+        return NotImplemented
+
+    def on_attr(self, eng, st, node, base, attr):
+        if base is self.w and attr == "index":
+            return Abstract("weight_labels")
+        if base is self.w and attr == "iloc":
+            return Abstract("weights_iloc")
+        return NotImplemented
+
+    def on_subscript(self, eng, st, node, base, index):
+        if base is self.w and is_z3(index):
+            return WL(index)
+        if isinstance(base, Abstract) and base.tag == "weights_iloc" and is_z3(index):
+            return WP(index)
+        if base is self.hs and is_z3(index):
+            return Abstract("predictor", t=index)
+        if isinstance(base, Abstract) and base.tag == "value_frame" and isinstance(index, Abstract) and index.tag == "weight_labels":
+            return Abstract("columns_in_weight_label_order")
+        return NotImplemented
+
+    def on_binop(self, eng, st, node, op, a, b):
+        if op == "Sub" and a == 1 and isinstance(b, Abstract) and b.tag == "mixture":
+            return Abstract("one_minus", of=b)
+        return NotImplemented
+
+    def on_store_subscript(self, eng, st, node, base, index, value):
+        if isinstance(base, Abstract) and base.tag == "value_frame":
+            t = st.env.get("t")
+            eng.oblige(st, "the_column_written_in_iteration_t_is_column_t", BoolVal(is_z3(index) and is_z3(t) and index.eq(t)), "wiring", node)
+            if isinstance(value, Abstract) and value.tag == "zeros":
+                eng.oblige(st, "a_column_is_zeroed_only_when_the_weight_labelled_like_it_is_zero", WL(index) == 0, "post", node)
+            else:
+                ok = isinstance(value, Abstract) and value.tag == "prediction" and is_z3(value.t) and value.t.eq(index) and value.of is self.X
+                eng.oblige(st, "column_t_is_the_prediction_of_predictor_t_on_X", BoolVal(bool(ok)), "wiring", node)
+            return True
+        return NotImplemented
+
+    def havoc_abstract(self, eng, st, name, v):
+        return v
+
+    def loops(self):
+        return {0: LoopSpec(lambda st: [("t_in_range", And(0 <= st.env["$k0"], st.env["$k0"] <= T_))])}
+
+    def post(self, eng, st, status, value):
+        if status != "return":
+            return [("no_exception", BoolVal(False))]
+        if not self.clf:
+            return [("regression_returns_the_value_frame", BoolVal(isinstance(value, Abstract) and value.tag == "value_frame"))]
+        ok = isinstance(value, Abstract) and value.tag == "pmf" and value.parts is not None and len(value.parts) == 2 and value.axis == 1
+        if not ok:
+            return [("returns_rows_one_minus_p_and_p", BoolVal(False))]
+        a, b = value.parts
+        return [("returns_rows_one_minus_p_and_p", BoolVal(isinstance(a, Abstract) and a.tag == "one_minus" and a.of is b)),
+                ("p_is_the_label_aligned_mixture_of_the_value_columns_with_weights_", BoolVal(isinstance(b, Abstract) and b.tag == "mixture" and b.aligned))]
+
+    def replay(self, ob, r):
+        """native check on the real method: weights_ stored out of label order (as after a duality-gap evaluation that appended an unselected predictor)"""
+        import numpy as np
+        import pandas as pd
+        from fairlearn.reductions import DemographicParity, ExponentiatedGradient
+        X = np.arange(6, dtype=float).reshape(-1, 1)
+        hs = pd.Series({0: (lambda X: (X[:, 0] > 0) * 1.0), 1: (lambda X: (X[:, 0] > 2) * 1.0), 2: (lambda X: (X[:, 0] > 4) * 1.0), 3: (lambda X: (X[:, 0] > 1) * 1.0)})
+        w = pd.Series([0.25, 0.0, 0.5, 0.25], index=[0, 3, 1, 2])
+        eg = ExponentiatedGradient.__new__(ExponentiatedGradient)
+        eg.constraints, eg._hs, eg.weights_ = DemographicParity(), hs, w
+        eg.estimator = None
+        try:
+            got = np.asarray(eg._pmf_predict(X))[:, 1]
+        except Exception as ex:
+            return {"confirmed": True, "key": "C10:EG._pmf_predict:raises", "what": f"_pmf_predict raised {type(ex).__name__}: {ex}"[:200], "replay": {"weights_index": [0, 3, 1, 2]}}
+        want = sum(float(w[t]) * np.asarray(hs[t](X), dtype=float) for t in w.index)
+        bad = not np.allclose(got, want)
+        return {"confirmed": bool(bad), "key": "C10:EG._pmf_predict:mixture",
+                "what": f"ExponentiatedGradient._pmf_predict with weights_ {w.tolist()} labelled {list(w.index)}: P(1) = {got.tolist()}, weighted mixture of the stored predictors = {want.tolist()}",
+                "replay": {"X": X.tolist(), "weights": w.tolist(), "weights_index": list(w.index), "got": got.tolist(), "expected": want.tolist()}}
